@@ -142,9 +142,60 @@ MUTANTS = [
                         self.archetype::<#Archetype>().contains(entity)''', '''entity: Entity<#Archetype>,
                     ) -> bool {
                         true''', ['C01']),
+    ('find_direct_handle_row_zero', 'macros/src/generate/query.rs', '''        ParseQueryParamType::EntityDirectWild => {
+            quote!(&::gecs::__internal::new_entity_direct::<MatchedArchetype>(found.index(), version))
+        }
+        ParseQueryParamType::OneOf(_) => {
+            panic!("must unpack OneOf first")
+        }
+        ParseQueryParamType::Option(_) => {
+            todo!() // Not yet implemented
+        }
+        ParseQueryParamType::With(_) => {
+            todo!() // Not yet implemented
+        }
+        ParseQueryParamType::Without(_) => {
+            todo!() // Not yet implemented
+        }
+    }
+}
+
+#[rustfmt::skip]
+fn find_bind_borrow''', '''        ParseQueryParamType::EntityDirectWild => {
+            quote!(&::gecs::__internal::new_entity_direct::<MatchedArchetype>(0, version))
+        }
+        ParseQueryParamType::OneOf(_) => {
+            panic!("must unpack OneOf first")
+        }
+        ParseQueryParamType::Option(_) => {
+            todo!() // Not yet implemented
+        }
+        ParseQueryParamType::With(_) => {
+            todo!() // Not yet implemented
+        }
+        ParseQueryParamType::Without(_) => {
+            todo!() // Not yet implemented
+        }
+    }
+}
+
+#[rustfmt::skip]
+fn find_bind_borrow''', ['C09']),
+    ('find_dispatch_drops_match', 'macros/src/generate/query.rs', '''                    #fetch.map(|found| closure(#(#attrs #bind),*))
+                }
+                #__WorldSelectTotal::#ArchetypeDirect(#resolved_entity) => {''', '''                    #fetch.map(|found| closure(#(#attrs #bind),*)).and_then(|_| None)
+                }
+                #__WorldSelectTotal::#ArchetypeDirect(#resolved_entity) => {''', ['C01']),
     ('gen_any_to_direct_none', GW, '''Ok(SelectEntity::#Archetype(entity)) =>
                                 self.#archetype.to_direct(entity).map(|e| e.into()),''', '''Ok(SelectEntity::#Archetype(entity)) =>
                                 None,''', ['C09']),
+    ('gen_event_iter_skips_archetype', GW, 'next.push(quote!(self.which += 1));', 'next.push(quote!(self.which += 2));', ['C17']),
+    ('gen_iter_destroyed_lists_created', GW, '#(#iter: self.#archetype.data.destroyed().iter(),)*', '#(#iter: self.#archetype.data.created().iter(),)*', ['C17']),
+    ('gen_iter_created_starts_at_second', GW, '''            fn iter_created(&self) -> impl Iterator<Item = &EntityAny> {
+                EcsEventIterator {
+                    which: 0,''', '''            fn iter_created(&self) -> impl Iterator<Item = &EntityAny> {
+                EcsEventIterator {
+                    which: 1,''', ['C17']),
     ('gen_select_try_from_wrong_variant_check', GW, '''                fn try_from(entity: EntityAny) -> Result<Self, EcsError> {
                     match entity.archetype_id() {
                         #(
